@@ -38,7 +38,7 @@ def sched_cases(ctx):
     r = ctx.rng
     cases = []
     def all_scheds(nt, L): return ("".join(p) for p in itertools.product("0123"[:nt], repeat=L))
-    arena = [([[8, 24], [16, 40]], 9 if quick else 12), ([[1], [1]], 6), ([[100, 3, 3], [7]], 8 if quick else 11),
+    arena = [([[8, 24], [16, 40]], 9 if quick else 12), ([[1], [1]], 6), ([[100, 3, 3], [7]], 8 if quick else 11), ([[0, 8], [0, 0]], 8 if quick else 10),
              ([[8], [24], [40]], 7 if quick else 9), ([[8, 8], [8], [8]], 6 if quick else 8), ([[16], [16], [16], [16]], 5 if quick else 7)]
     locale = [([[0, 1], [1, 0]], 9 if quick else 12), ([[0, 0], [0]], 8 if quick else 10), ([[0], [0], [0]], 7 if quick else 9),
               ([[0, 1], [0], [1]], 6 if quick else 8), ([[0], [0], [0], [0]], 5 if quick else 7), ([[2, 2, 2], [2, 3]], 8 if quick else 11)]
@@ -50,7 +50,7 @@ def sched_cases(ctx):
     # random longer scripts and schedules
     for _ in range(400 if quick else 6000):
         nt = r.choice([2, 2, 3, 4]); kind = r.choice(["arena", "locale"])
-        scr = [[(r.randrange(1, 200) if kind == "arena" else r.randrange(0, 5)) for _ in range(r.randrange(0, 5))] for _ in range(nt)]
+        scr = [[(r.choice([0, r.randrange(1, 200), r.randrange(1, 200)]) if kind == "arena" else r.randrange(0, 5)) for _ in range(r.randrange(0, 5))] for _ in range(nt)]
         cases.append(["cc sched %s %s %s" % (kind, fmt(scr), "".join(r.choice("0123"[:nt]) for _ in range(r.randrange(0, 40))) or "-")])
     for scr in ([[0, 1], [1, 1, 0]], [[0], [0]], [[1], [0, 0]], [[0, 0, 0], [0, 0], [0]]):
         for sc in ("-", "0101", "1100", "010011", "1", "000111"):
